@@ -209,6 +209,13 @@ def run_one(sc):
             beside = sorted(x for x in os.listdir(parent) if x != os.path.basename(target)) if os.path.isdir(parent) else []
             ntmp = len(os.listdir(priv))
             return {"target": t, "beside": beside, "tmp": ntmp}
+        if s.get("prior", "none") == "export_edit":
+            # an earlier export of this very object to another place, then an in-place edit of two components
+            with contextlib.redirect_stdout(io.StringIO()):
+                _call(doc, writer, os.path.join(root, "earlier", "first." + _ext(writer)), StubConverter("ok") if writer != "rtf" else None)
+            doc.rtf_title.text = ["Title edited in place", "second line"]
+            doc.rtf_footnote.text = ["footnote edited in place"]
+            expected_rtf = doc.rtf_encode()
         before = snap()
         conv = StubConverter(s["conv"]) if s["converter"] == "stub" and writer != "rtf" else None
         if s["converter"] in ("real", "onpath") and writer != "rtf":
